@@ -23,7 +23,9 @@ Mechanism keys
   afterwards/<callback-kind>/<op-kind>/diverged
   harness/nondeterministic-replay                    (replay did not rebuild the twin's state)
 """
+import gc
 import warnings
+import weakref
 
 from traits.api import (
     HasTraits, MetaHasTraits, TraitType, TraitError, Trait, Int, Str, Any, List, Dict, Set,
@@ -66,7 +68,10 @@ META = {
              "property, 10% adaptation, 10% quiet-set, 10% sync, with listeners forced on the traits "
              "concerned; plus 10% deferred-traits stratum (PrototypedFrom / DelegatesTo over a prototype with "
              "fault-pointed validators: assign via the deferring attribute, change the prototype, delete "
-             "the local value), general 40%) x a random set of static / on_trait_change / observe handlers. "
+             "the local value), an object-lifetime stratum (bound-method / target= listener objects and "
+             "observed Child objects that the history lets go of; weak references after gc.collect() are "
+             "part of the snapshot); strata are drawn by (history index // 16) % 12: general 5/12, "
+             "property 2/12, each other 1/12) x a random set of static / on_trait_change / observe handlers. "
              "Per history the fault space is ENUMERATED: every operation j x every user-callback "
              "tick k <= n_j (learnt from a fault-free twin) x E in {TraitError, ValueError, "
              "AttributeError, RuntimeError}. distinct_nontrivial = distinct (operation kind, "
@@ -74,8 +79,11 @@ META = {
     "phases": [{"name": "main", "flavour": "P", "shards": 16}],
     "gates": {
         "quick": dict({"faults:" + k: 60 for k in _KINDS}, **{
-            "histories": 200, "histories:property": 40, "histories:adapt": 20,
-            "histories:quiet": 20, "histories:sync": 20, "histories:deferred": 20,
+            "histories": 200, "histories:property": 35, "histories:adapt": 15,
+            "histories:quiet": 20, "histories:sync": 15, "histories:deferred": 20,
+            "histories:lifetime": 15, "faults:listener-owned-handler:legacy": 100,
+            "listener_drops_after_its_handler_failed": 30,
+            "reclaimed_after_fault_observed": 1500,
             "faults:deferred-assignment": 200,
             "prototype_sets_after_failed_deferred_assignment": 250,
             "faults_injected": 15000, "precommit_judged": 8000,
@@ -84,19 +92,22 @@ META = {
             "postcommit_getter_faults:cp": 200,
             "cached_property_renotified_after_fault:dp": 100,
             "cached_property_renotified_after_fault:cp": 100,
-            "faults:adapter-factory:default-mode": 400,
-            "faults:adapter-factory:default-mode:holding-value": 100,
+            "faults:adapter-factory:default-mode": 300,
+            "faults:adapter-factory:default-mode:holding-value": 80,
             "alt_twin_compared": 80, "alt_natural_reject_compared": 50,
             "faults:default-factory": 50,
             # quiet / multi-name sets
             "faults:in-quiet-set": 600, "faults:in-multi-set:later-name": 500,
             "notifications_after_failed_quiet_set": 2000,
             # nested deciding callbacks (sync_trait forwarding)
-            "nested_deciding_judged": 500, "nested_rejection_twin_compared": 400,
-            "nested_followup_ops_compared": 1800}),
+            "nested_deciding_judged": 400, "nested_rejection_twin_compared": 300,
+            "nested_followup_ops_compared": 1400}),
         "thorough": dict({"faults:" + k: 1000 for k in _KINDS}, **{
-            "histories": 3000, "histories:property": 600, "histories:adapt": 300,
-            "histories:quiet": 300, "histories:sync": 300, "histories:deferred": 300,
+            "histories": 3000, "histories:property": 500, "histories:adapt": 250,
+            "histories:quiet": 300, "histories:sync": 250, "histories:deferred": 300,
+            "histories:lifetime": 250, "faults:listener-owned-handler:legacy": 1600,
+            "listener_drops_after_its_handler_failed": 500,
+            "reclaimed_after_fault_observed": 25000,
             "faults:deferred-assignment": 3000,
             "prototype_sets_after_failed_deferred_assignment": 3800,
             "faults_injected": 250000, "precommit_judged": 140000,
@@ -105,14 +116,14 @@ META = {
             "postcommit_getter_faults:cp": 3000,
             "cached_property_renotified_after_fault:dp": 1500,
             "cached_property_renotified_after_fault:cp": 1500,
-            "faults:adapter-factory:default-mode": 6000,
-            "faults:adapter-factory:default-mode:holding-value": 1500,
+            "faults:adapter-factory:default-mode": 4500,
+            "faults:adapter-factory:default-mode:holding-value": 1200,
             "alt_twin_compared": 1200, "alt_natural_reject_compared": 800,
             "faults:default-factory": 800,
             "faults:in-quiet-set": 9000, "faults:in-multi-set:later-name": 8000,
             "notifications_after_failed_quiet_set": 30000,
-            "nested_deciding_judged": 8000, "nested_rejection_twin_compared": 6000,
-            "nested_followup_ops_compared": 28000}),
+            "nested_deciding_judged": 6000, "nested_rejection_twin_compared": 4500,
+            "nested_followup_ops_compared": 21000}),
     },
     "exhaustive_parts": ("for each generated history, all (operation j, callback tick k, exception "
                          "type E) fault positions are enumerated (k capped at 40 per operation; "
@@ -138,6 +149,10 @@ META = {
         "'the partner rejects': nothing may reach the outer caller and the run and everything after "
         "it must equal the run in which that callback rejected with TraitError (whether the injected "
         "exception is also reported on an exception channel is not compared)",
+        "object lifetime is observable behaviour ('every subsequent operation behaves exactly as on an "
+        "object that never saw the failure'): a listener owner or observed object the history lets go of "
+        "must be reclaimed (weakref dead after gc.collect()) exactly when it is in the never-faulted twin; "
+        "the harness itself keeps no reference to injected exceptions, tracebacks or replaced values",
         "a cached property already stale before the operation (a quiet set invalidates nothing) is "
         "not held against the operation",
         "notifications whose subject is a property whose getter was faulted post-commit are exempt, "
@@ -177,6 +192,7 @@ class FP:
         self.why = {}
         self.probe = None
         self.raised = None
+        self.fired = False
 
     def off(self):
         self.mode = 0
@@ -193,6 +209,7 @@ class FP:
         self.raised = None
 
     def arm(self, k, exc):
+        self.fired = False
         self.mode = 2
         self.n = 0
         self.k = k
@@ -211,7 +228,11 @@ class FP:
         if m == 1:
             self.post.append(self.probe())
         elif n == self.k:
-            self.raised = e = self.exc("injected at tick %d (%s)" % (n, kind))
+            self.fired = True
+            # the instance is marked, not remembered: a reference from the harness would pin its
+            # traceback, the handler frames and the objects whose lifetime is being compared
+            e = self.exc("injected at tick %d (%s)" % (n, kind))
+            e._vf_injected = True
             raise e
         return n
 
@@ -244,7 +265,7 @@ def _legacy_exc(obj, name, old, new):
     env = _CUR[0]
     e = sys.exc_info()[1]
     if env is not None:
-        env.chan.append(("legacy", type(e).__name__, e is env.fp.raised))
+        env.chan.append(("legacy", type(e).__name__, getattr(e, "_vf_injected", False)))
 
 
 def _pre_tracer(obj, name, old, new, handler):
@@ -263,7 +284,7 @@ def _obs_exc(event):
     env = _CUR[0]
     e = sys.exc_info()[1]
     if env is not None:
-        env.chan.append(("observe", type(e).__name__, e is env.fp.raised))
+        env.chan.append(("observe", type(e).__name__, getattr(e, "_vf_injected", False)))
 
 
 # ---------------------------------------------------------------------------
@@ -601,15 +622,48 @@ def newly_stale(r_stale, *refs):
     return sorted(x)
 
 
+class Listener:
+    """A plain object whose bound methods are change handlers.  traits holds bound-method
+    handlers (and target= objects) weakly: once the harness drops its only strong reference the
+    listener must be reclaimed, its handlers unregistered and never called again."""
+
+    def __init__(self, env, tag):
+        self.env = env
+        self.tag = tag
+
+    def on_change(self, obj, name, old, new):
+        env = self.env
+        n = env.fp.tick("handler-otc", ("listener", self.tag))
+        env.log.append((n, "otc:L%d" % self.tag, repr(obj), name, enc(old), enc(new)))
+
+    def on_event(self, event):
+        env = self.env
+        n = env.fp.tick("handler-observe", ("listener", self.tag))
+        env.log.append((n, "obs:L%d" % self.tag, repr(event.object), event.name,
+                        enc(event.old), enc(event.new)))
+
+
+def _target_handler(env, tag):
+    # registered with target=<listener>: must not reference the listener itself
+    def h(obj, name, old, new):
+        n = env.fp.tick("handler-otc", ("listener", tag))
+        env.log.append((n, "otc-target:L%d" % tag, repr(obj), name, enc(old), enc(new)))
+    return h
+
+
 class Graph:
     """One object graph, rebuilt from scratch for every replay."""
 
     def __init__(self, env, W, Child, cfg, Proto=None):
         env.reset()
         self.env = env
+        self.cfg = cfg
         self.Child = Child
         self.main = W()
-        self.pool = [("W", self.main, MAIN_TRAITS)]
+        self.pool = [("W", self.main, MAIN_TRAITS)]   # (key, object or weakref.ref, declared names)
+        self.track_life = bool(cfg.get("lifetime"))
+        self.tracked = {}     # key -> weakref of an object whose lifetime is part of the snapshot
+        self.lsn = {}         # index -> listener object (the harness's only strong reference)
         self.ws = [self.main]
         self.b = None
         self.Proto = Proto
@@ -678,6 +732,23 @@ class Graph:
             h = otc("*")
             self.keep.append(h)
             self.main.on_trait_change(h)
+        if self.track_life:
+            for i in range(3):
+                lsn = Listener(env, i)
+                self.lsn[i] = lsn
+                self.tracked["L%d" % i] = weakref.ref(lsn)
+            for (i, mech, where, nm) in cfg["lsn"]:
+                if where == "main":
+                    self.hook(self.lsn[i], mech, self.main, nm)
+            lsn = None
+
+    def hook(self, lsn, mech, obj, nm):
+        if mech == "otc":
+            obj.on_trait_change(lsn.on_change, nm)
+        elif mech == "obs":
+            obj.observe(lsn.on_event, nm)
+        else:
+            obj.on_trait_change(_target_handler(self.env, lsn.tag), nm, target=lsn)
 
     # -- values ------------------------------------------------------------
     def val(self, d):
@@ -697,7 +768,15 @@ class Graph:
                 return c
             if kind == "child":
                 c = self.Child(tag=d[2])
-                self.pool.append(("Child#%s" % d[2], c, CHILD_TRAITS))
+                if self.track_life:
+                    # the graph is the only owner: once main.child lets go of it, it must die
+                    self.pool.append(("Child#%s" % d[2], weakref.ref(c), CHILD_TRAITS))
+                    self.tracked["Child#%s" % d[2]] = weakref.ref(c)
+                    for (i, mech, where, nm) in self.cfg["lsn"]:
+                        if where == "child" and i in self.lsn:
+                            self.hook(self.lsn[i], mech, c, nm)
+                else:
+                    self.pool.append(("Child#%s" % d[2], c, CHILD_TRAITS))
                 return c
             raise AssertionError(d)
         if type(d) is list:
@@ -710,9 +789,23 @@ class Graph:
 
     # -- operations --------------------------------------------------------
     def do(self, op, a=None):
+        if not self.track_life:
+            return self._do(op, a)
+        try:
+            return self._do(op, a)
+        finally:
+            k = op[0]
+            if k == "drop-listener" or (k == "set" and op[1] in ("child", "box")):
+                # lifetimes are compared after a full collection (traits objects sit in cycles)
+                gc.collect()
+
+    def _do(self, op, a=None):
         if a is None:
             a = self.main
         k = op[0]
+        if k == "drop-listener":
+            self.lsn.pop(op[1], None)
+            return None
         if k == "on-b":
             return self.do(op[1], self.b)
         if k == "multi":
@@ -847,6 +940,10 @@ class Graph:
         cen = {}
         ids = {}
         for key, o, names in self.pool:
+            if type(o) is weakref.ref:
+                o = o()
+                if o is None:
+                    continue          # reclaimed: its keys vanish from the snapshot
             d = o.__dict__
             for n in names:
                 if n in d:
@@ -876,6 +973,9 @@ class Graph:
                         cen[key, n] = len(x) if x else 0
             x = o._notifiers(False)
             cen[key, ""] = len(x) if x else 0
+        o = None
+        for key, ref in self.tracked.items():
+            vals["life", key] = ("alive" if ref() is not None else "reclaimed", None)
         return vals, cen, ids
 
 
@@ -917,6 +1017,8 @@ def op_kind(op):
         return "partner:" + op_kind(op[1])
     if k == "multi":
         return "multi-" + op[1]
+    if k == "drop-listener":
+        return "drop-listener"
     if k == "proto-set":
         return "prototype-set"
     if k == "del":
@@ -945,6 +1047,7 @@ def gen_config(rng):
         "obs": pick(OBS_CANDS, 1, 8),
         "obj_otc": rng.random() < 0.12,
         "sync": [], "sync_first": rng.random() < 0.5, "b_otc": [], "b_obs": [], "deferred": False,
+        "lifetime": False, "lsn": [],
     }
 
 
@@ -1177,6 +1280,25 @@ def gen_deferred_stratum_op(rng, idx):
     return gen_op(rng, idx)
 
 
+def gen_lifetime_stratum_op(rng, idx):
+    """Changes heard by bound-method listeners, and letting go of listeners / observed objects."""
+    c = rng.randrange(20)
+    if c < 7:
+        a = rng.choice(["t", "t", "i", "f", "s"])
+        return ("set", a, rng.choice(["a", "b", 3]) if a == "s" else rng.choice([_int(rng), _int(rng), _int(rng), "x"]))
+    if c < 10:
+        return ("child-set", rng.choice(["v", "v", "w"]), rng.choice([_int(rng), _int(rng), "x"]))
+    if c < 12:
+        return ("set", "child", ("@", "child", idx))
+    if c < 13:
+        return ("set", "child", None)
+    if c < 17:
+        return ("drop-listener", rng.randrange(3))
+    if c < 18:
+        return ("set", "box", ("@", "box"))
+    return gen_op(rng, idx)
+
+
 def watched(cfg):
     """Attributes whose change reaches at least one user handler."""
     if cfg["anytrait"] or cfg["obj_otc"]:
@@ -1222,6 +1344,20 @@ def gen_history(rng, stratum="general"):
         _force(rng, cfg, rng.sample(["p", "dn", "i", "t"], 2))
         while len(ops) < n:
             ops.append(gen_prop_op(rng, len(ops)))
+        return cfg, ops
+    if stratum == "lifetime":
+        cfg["lifetime"] = True
+        regs = []
+        for i in range(3):
+            for _ in range(rng.randint(1, 3)):
+                where = rng.choice(["main", "main", "child"])
+                nm = rng.choice(["t", "t", "t", "i", "f", "s", "child", "box"]) if where == "main" \
+                    else rng.choice(["v", "v", "w"])
+                regs.append((i, rng.choice(["otc", "otc", "obs", "target"]), where, nm))
+        cfg["lsn"] = sorted(set(regs))
+        ops.append(("set", "child", ("@", "child", 0)))
+        while len(ops) < n:
+            ops.append(gen_lifetime_stratum_op(rng, len(ops)))
         return cfg, ops
     if stratum == "deferred":
         cfg["deferred"] = True
@@ -1269,38 +1405,46 @@ def gen_history(rng, stratum="general"):
 
 
 def stratum_of(h):
-    r = (h // 16) % 10          # independent of the shard (h % 16): every shard sees every stratum
-    return {3: "property", 7: "property", 5: "adapt", 1: "quiet", 9: "sync", 0: "deferred"}.get(r, "general")
+    r = (h // 16) % 12          # independent of the shard (h % 16): every shard sees every stratum
+    return {3: "property", 7: "property", 5: "adapt", 1: "quiet", 9: "sync", 0: "deferred",
+            11: "lifetime"}.get(r, "general")
 
 
 # ---------------------------------------------------------------------------
 # running one operation and collecting what the oracle needs
 # ---------------------------------------------------------------------------
 class Res:
-    __slots__ = ("out", "exc", "vals", "cen", "ids", "log", "chan", "stale", "kinds", "subj")
+    __slots__ = ("out", "exc_type", "exc_repr", "vals", "cen", "ids", "log", "chan", "stale", "kinds", "subj")
 
 
 def strip(log):
     return [e[1:] for e in log]
 
 
-def run_op(g, op):
+def run_op(g, op, keep_ids=False):
     """Run op on graph g with the FP in whatever mode the caller set; returns Res."""
     env = g.env
     env.depth = 0
     l0, c0 = len(env.log), len(env.chan)
     r = Res()
-    r.exc = None
+    r.exc_type = None
+    r.exc_repr = None
     try:
         r.out = ("ok", g.do(op))
     except Exception as e:       # noqa: BLE001 - outcome classification
         r.out = ("exc", type(e).__name__)
-        r.exc = e
+        # the exception instance itself is NOT kept: its traceback would pin the frames and
+        # with them the objects whose lifetime the monitor compares
+        r.exc_type = type(e)
+        r.exc_repr = repr(e)
     fp = env.fp
     r.kinds = fp.kinds
     r.subj = fp.subj
     fp.off()
+    fp.raised = None
     r.vals, r.cen, r.ids = g.snap()
+    if not keep_ids:
+        r.ids = None
     r.log = env.log[l0:]
     r.chan = env.chan[c0:]
     r.stale = cache_stale(g.ws)
@@ -1324,7 +1468,7 @@ class Trace:
         self.nat = []
         self.why = []         # per op: {tick: what the commit detector saw}
         self.nticks = None
-        cur = g.snap()
+        cur = g.snap()[:2] + (None,)
         for m, op in enumerate(ops):
             self.pre.append(cur)
             if replace is not None and m in replace:
@@ -1346,7 +1490,7 @@ class Trace:
             self.post_flags.append(roles_of(env.fp.post, r.kinds) if learn else [])
             self.nat.append(set(env.fp.nat) if learn else set())
             self.why.append(dict(env.fp.why) if learn else {})
-            cur = (r.vals, r.cen, r.ids)
+            cur = (r.vals, r.cen, None)
 
 
 def _never():
@@ -1415,8 +1559,8 @@ def first_pre_complaint(E, r, base):
         dv = diff_values(pv, r.vals, same)
         return "wrong-exception:none", ("the operation returned normally; state changed: %r; notifications: %r"
                                         % ([(k, pv.get(k), r.vals.get(k)) for k in dv[:4]], strip(r.log)[:4]))
-    if not (type(r.exc) is E or isinstance(r.exc, TraitError)):
-        return "wrong-exception:" + type(r.exc).__name__, "caller saw %r" % (r.exc,)
+    if not (r.exc_type is E or issubclass(r.exc_type, TraitError)):
+        return "wrong-exception:" + r.exc_type.__name__, "caller saw %s" % (r.exc_repr,)
     dv = diff_values(pv, r.vals, same)
     if dv:
         return "state-changed", "changed: %r" % [(k, pv.get(k), r.vals.get(k)) for k in dv[:4]]
@@ -1569,9 +1713,18 @@ class History:
         _CUR[0] = env
         old_am = get_global_adaptation_manager()
         set_global_adaptation_manager(self.classes[2])
+        frozen = False
+        if self.cfg["lifetime"]:
+            # this history calls gc.collect() after every operation that lets go of an object:
+            # park everything that already exists so that those collections stay cheap
+            gc.collect()
+            gc.freeze()
+            frozen = True
         try:
             return self._run()
         finally:
+            if frozen:
+                gc.unfreeze()
             set_global_adaptation_manager(old_am)
             _CUR[0] = None
             env.reset()
@@ -1619,6 +1772,10 @@ class History:
                 for E in EXCS:
                     g = replay_prefix(env, classes, cfg, ops, j)
                     pre_g = g.snap()
+                    if post:
+                        # value identities are only judged for pre-commit faults; held across a
+                        # completing operation they would keep replaced values alive
+                        pre_g = (pre_g[0], pre_g[1], None)
                     pre_stale = cache_stale(g.ws)
                     if diff_values(pre_g[0], pre[0]) or diff_census(pre_g[1], pre[1]):
                         ctx.violation("harness/nondeterministic-replay",
@@ -1627,7 +1784,7 @@ class History:
                                       self.witness(op=j))
                         return True
                     env.fp.arm(k, E)
-                    r = run_op(g, op)
+                    r = run_op(g, op, keep_ids=not post)
                     ninj += 1
                     ctx.ev()
                     ctx.count("faults_injected")
@@ -1637,6 +1794,13 @@ class History:
                         # later changes of the prototype, which must still be forwarded
                         ctx.count("prototype_sets_after_failed_deferred_assignment",
                                   sum(1 for o in ops[j + 1:] if o[0] == "proto-set"))
+                    owner = tr.subj[k - 1]
+                    if owner is not None and owner[0] == "listener":
+                        ctx.count("faults:listener-owned-handler")
+                        if kind == "handler-otc":
+                            ctx.count("faults:listener-owned-handler:legacy")
+                        ctx.count("listener_drops_after_its_handler_failed",
+                                  sum(1 for o in ops[j + 1:] if o[0] == "drop-listener" and o[1] == owner[1]))
                     if quiet_op:
                         ctx.count("faults:in-quiet-set")
                     if sub > 1:
@@ -1647,7 +1811,7 @@ class History:
                         if cur is not None and cur[0] != "None" and pre_g[1].get(("W", op[1])):
                             # the trait holds a non-default value and carries change handlers
                             ctx.count("faults:adapter-factory:default-mode:holding-value")
-                    if env.fp.raised is None or r.kinds[:k] != kinds[:k]:
+                    if not env.fp.fired or r.kinds[:k] != kinds[:k]:
                         ctx.violation("harness/nondeterministic-replay",
                                       "tick %d of op %d was %r in the twin, replay saw %r"
                                       % (k, j, kinds[:k], r.kinds[:k]),
@@ -1667,6 +1831,12 @@ class History:
                         else:
                             base = multi[1][sub - 1]
                         complaint, detail = first_pre_complaint(E, r, base)
+                        # identities are only needed for this judgement; holding them would keep
+                        # replaced values alive in the faulted graph and not in its twin
+                        r.ids = None
+                        if sub == 1:
+                            base.ids = None
+                        pre_g = (pre_g[0], pre_g[1], None)
                         ref = None
                         relax = None
                         if complaint is None:
@@ -1733,7 +1903,7 @@ class History:
                                           "%s raised in a post-commit %s callback (tick %d of %r): caller saw %r "
                                           "(fault-free outcome %r) [a callback that decides the outcome ran "
                                           "after the operation's effect was already visible: %s]"
-                                          % (E.__name__, kind, k, op, r.exc or r.out, tr.out,
+                                          % (E.__name__, kind, k, op, r.exc_repr or r.out, tr.out,
                                              info.get("commit_evidence", "?")), self.witness(**info))
                             return True
                         if newly_stale(r.stale, pre_stale, tr.stale):
@@ -1777,7 +1947,7 @@ class History:
                             ctx.count("postcommit_getter_faults:" + tr.subj[k - 1][1])
                         if r.out != tr.out:
                             complaint = "exception-reached-caller"
-                            detail = "caller saw %r (fault-free outcome %r)" % (r.exc or r.out, tr.out)
+                            detail = "caller saw %s (fault-free outcome %r)" % (r.exc_repr or r.out, tr.out)
                         else:
                             dv = diff_values(r.vals, tr.vals)
                             dc = diff_census(r.cen, tr.cen)
@@ -1835,6 +2005,11 @@ class History:
                         d = self.follow_pair(g, alt_ref[1], j)
                     else:
                         d = self.follow(g, j, ref, relax)
+                    if self.cfg["lifetime"] and g.cont and g.cont[-1] is not None:
+                        # objects seen reclaimed on the faulted graph by the end of the history
+                        ctx.count("reclaimed_after_fault_observed",
+                                  sum(1 for kk, vv in g.cont[-1].vals.items()
+                                      if kk[0] == "life" and vv[0] == "reclaimed"))
                     if quiet_op and not post:
                         # handlers seen firing again after a failed quiet set
                         ctx.count("notifications_after_failed_quiet_set", len(env.log) - l1)
